@@ -114,7 +114,9 @@ PROPS = {
              "py_Constraint_is_simple_constraint", "py_Constraint_is_complex_constraint",
              "py_Constraint_is_logical_constraint", "py_Constraint_is_arithmetic_constraint",
              "py_Constraint_is_aggregation_constraint", "py_Constraint_is_single_feature_constraint",
-             "py_Constraint_get_features", "py_left_right_features_from_simple_constraint", "py_split_formula"],
+             "py_Constraint_get_features", "py_left_right_features_from_simple_constraint", "py_split_formula",
+             "py_split_constraint", "py_Constraint_is_pseudocomplex_constraint",
+             "py_Constraint_is_strictcomplex_constraint", "py_get_new_ctc_name"],
         suites=[suite_k.run],
         rule=("suite K: str, pretty_str, get_operators/operands, get_features, the ten kind predicates, "
               "left_right_features_from_simple_constraint, split_constraint, get_clauses on one constraint, compared with "
